@@ -226,32 +226,6 @@ def specTruth (c : Case) (st : SpecState) : Option Bool :=
 
 def lastWord (s : Str) : Bool := isWordO s.getLast?
 
-def isInfix (a b : Str) : Bool :=
-  (List.range (b.length + 1)).any fun i => a.isPrefixOf (b.drop i)
-
-/-- graph route: the node texts are such that the qualifier normalisation of the graph parser
-(regex substitution per node over the whole line) cannot touch a neighbouring node:
-names are plain words, no name occurs as a qualifier or inside an offset, and no alias qualifier of
-a node is a prefix of another qualifier of the same node (nor repeated, for a node with an offset) -/
-def textSafe (g : List (Str × Str × Option Str × Bool)) : Bool :=
-  let names := g.map (·.1)
-  let plain := names.all fun n => n.all isWord
-  let std : List Str := ["succeeded", "failed", "started", "submitted", "submit-failed", "expired", "finished",
-    "succeed", "fail", "start", "submit", "submit-fail", "expire", "finish"].map String.toList
-  let noQual := names.all fun n => !std.contains n && g.all fun (_, o, q, _) => q != some n && !isInfix n o
-  let idx := List.range g.length
-  let aliasOk := idx.all fun i => idx.all fun j =>
-    match g[i]?, g[j]? with
-    | some (n1, o1, some t1, true), some (n2, o2, q2, _) =>
-      if i == j || n1 != n2 || o1 != o2 then true
-      else
-        let t2 := q2.getD "succeeded".toList      -- a bare node is given `:succeeded` first
-        if !t1.isPrefixOf t2 then true
-        else if !o1.isEmpty then false                      -- `name[off]:alias` has no closing `\b`
-        else t1.length == t2.length || isWordO (t2.drop t1.length).head?
-    | _, _ => true
-  plain && noQual && aliasOk
-
 /-- which recorded finding a failing case belongs to (features of the input only) -/
 def findingKey (c : Case) : Option String :=
   let ks := c.trigs.map fun t => (c.render (specKey c t).1, t.name, t.out)
@@ -263,8 +237,7 @@ def findingKey (c : Case) : Option String :=
     n1 == n2 && p2 == '-' :: p1 && (o1 == o2 || bprefix o1 o2)
   let prefixed := ks.any fun (p1, n1, o1) => ks.any fun (p2, n2, o2) =>
     p1 == p2 && n1 == n2 && bprefix o1 o2
-  if c.graph && !textSafe c.gnodes then some "graph-text-collision"
-  else if negPt then some "neg-point-collision"
+  if negPt then some "neg-point-collision"
   else if quote then some "message-quote"
   else if endNon then some "message-end-nonword"
   else if prefixed then some "message-prefix-collision"
